@@ -5,6 +5,8 @@ import json, subprocess, sys
 
 WHOLE = "trusted base: dependency shims listed in evidence.assumptions (base v0.0.9 + 4 API additions + channel-waiting once.Task; bigmachine v0.5.8 + 1 rpc arg case), go.mod/exec/config.go overlays, go1.26.8 with the seeded runtime rand/select overlay, testing/synctest fake clock, the in-process simnet transport (real rpc client/server, no sockets), all machines in one OS process; the reference evaluator in sim/spec written from operator docs; sampling, not enumeration"
 
+COMP = "trusted base: dependency shims (base v0.0.9 + API additions, overlays), go1.26.8; the component under test is real code driven through its exported (or build-tag-exported) interface; its environment (executor / byte channel / upstream readers / consumer) is the simulator; sampling, not enumeration, except where the rule says exhaustive"
+
 CHECKS = {
  "C01": dict(level="exploration", engine="world",
    text="Seeded deterministic simulation of the whole system (driver, bigmachine workers over the simulated network, fake clock) running grammar-generated operator DAGs failure-free on both executors; scanned rows, WriterFunc/Scan observations and user counters are compared with a sequential reference evaluator. Exploration: thousands of distinct programs x configurations x schedules per run; a clean batch is evidence, not proof.",
@@ -33,6 +35,18 @@ CHECKS = {
  "C13": dict(level="fault_enumeration", engine="world",
    text="Two-process cache histories on a simulated file system (base/file scheme simfs://, commit-on-close semantics): process 1 runs a program with a Cache/CachePartial operator clean, or with an error / short write / sticky error at the k-th create, write, close or stat of the cache files, or with a crash-stop at the k-th file operation (the process exits; only published files survive in a snapshot), or with a machine kill or a reader error; process 2 starts from the surviving files (optionally minus a subset) and runs the same program. Oracles: rows equal the reference, every published shard file decodes with the real decoder to exactly its shard's reference rows at the start and end of every process, process 2 succeeds, cached shards are not recomputed (user-function call counts). Fault positions are seeded, not exhaustively swept, in the quick tier.",
    design="§6 C13", technique="deterministic simulation with disk fault injection and crash-restart across OS processes, durable-state invariant + reference-model oracle", note=WHOLE + "; built with CGO_ENABLED=0 (klauspost zstd) except the one recorded reproduction of the DataDog-zstd dependency finding"),
+ "C03": dict(level="exploration", engine="comp",
+   text="The real exec.Eval is driven by a simulated Executor that decides every task outcome at quiescent points of a synctest bubble (OK / LOST / fatal, via RUNNING or not, loss of completed tasks, a second evaluation over overlapping roots) over seeded task graphs with initial states as earlier evaluations leave them; safety and progress oracles are evaluated over the recorded history with event sequence numbers (dependencies OK in the window before each hand-out, single hand-out, only needed tasks, nil only if all roots were OK, give-up limit, something always in flight, termination after faults stop). ~200k scenarios per quick run.",
+   design="§6 C03", technique="deterministic simulation of the evaluator against a simulated executor: seeded outcome/fault histories, history oracles, shrinking", note=COMP),
+ "C07": dict(level="fault_enumeration", engine="comp",
+   text="Real encoder -> simulated byte channel -> real decoder. For every generated small stream (<= 600 bytes) every single-bit flip and every truncation point is enumerated; large streams get seeded damage restricted to classes a CRC-32 must detect, plus truncations, short reads and EOF vs unexpected-EOF at the cut. Oracle: delivered rows are exactly the written rows in order; damage gives a non-EOF error and no row of a later batch.",
+   design="§6 C07", technique="fault injection on a simulated byte channel: exhaustive single-bit/truncation sweep of small streams + seeded damage of large ones", note=COMP),
+ "C10": dict(level="exploration", engine="comp",
+   text="sortio.SortReader / NewMergeReader / Reduce over simulated upstream readers (chunking, empty reads, rows-with-EOF, injected read error at the k-th read) with spill targets from 1 byte and per-process vector/canary/spill-batch sizes from 1 up; oracles: sorted multiset / sorted union / one folded row per key; injected errors are reported, never replaced by EOF; no spill directory survives the constructor.",
+   design="§6 C10", technique="deterministic simulation of upstream readers and consumer with fault injection (read errors), randomised size knobs, durable-state (spill dir) inspection", note=COMP),
+ "C17": dict(level="exploration", engine="comp",
+   text="Every library and operator reader is driven by a simulated upstream (scripted chunking incl. empty non-EOF reads and rows-with-EOF, injected read errors) and a simulated consumer (seeded destination sizes, poisoned destination frames taken as views at an offset); oracles: count bounds, nothing written outside the returned rows or the view, same row sequence for every chunking pair, earlier frames unchanged, sticky EOF, errors propagated; scanner arity/type rejection.",
+   design="§6 C17", technique="deterministic simulation of upstream/consumer around each reader, seeded chunkings, poison-frame oracle", note=COMP),
 }
 
 NOT_APPLICABLE = {
